@@ -133,7 +133,10 @@ static struct yytbl_data *mkctbl (void)
 	yytbl_data_init (tbl, YYTD_ID_TRANSITION);
 	tbl->td_flags = YYTD_DATA32 | YYTD_STRUCT;
 	tbl->td_hilen = 0;
-	tbl->td_lolen = (flex_uint32_t) (tblend + 2 + 1);	/* number of structs */
+	/* number of structs: the end-of-buffer state is followed by numecs
+	 * zeroed (jam) slots, see the comment below.
+	 */
+	tbl->td_lolen = (flex_uint32_t) (tblend + 2 + 1 + numecs);
 
 	tbl->td_data = tdata =
 		calloc(tbl->td_lolen * 2, sizeof (flex_int32_t));
@@ -150,10 +153,10 @@ static struct yytbl_data *mkctbl (void)
 	 */
 
 	/* We need to have room in nxt/chk for two more slots: One for the
-	 * action and one for the end-of-buffer transition.  We now *assume*
-	 * that we're guaranteed the only character we'll try to index this
-	 * nxt/chk pair with is EOB, i.e., 0, so we don't have to make sure
-	 * there's room for jam entries for other characters.
+	 * action and one for the end-of-buffer transition.  The matching loop
+	 * also enters this state on a NUL that is part of the input, and then
+	 * indexes it with the class of the character that follows, so the
+	 * emitted table is padded with numecs jam entries after it.
 	 */
 
 	while (tblend + 2 >= current_max_xpairs)
@@ -249,7 +252,7 @@ static void genctbl(void)
 	int     end_of_buffer_action = num_rules + 1;
 
 	/* Table of verify for transition and offset to next state. */
-	out_dec ("m4_define([[M4_HOOK_TRANSTABLE_SIZE]], [[%d]])", tblend + 2 + 1);
+	out_dec ("m4_define([[M4_HOOK_TRANSTABLE_SIZE]], [[%d]])", tblend + 2 + 1 + numecs);
 	outn ("m4_define([[M4_HOOK_TRANSTABLE_BODY]], [[m4_dnl");
 
 	/* We want the transition to be represented as the offset to the
@@ -264,10 +267,10 @@ static void genctbl(void)
 	 */
 
 	/* We need to have room in nxt/chk for two more slots: One for the
-	 * action and one for the end-of-buffer transition.  We now *assume*
-	 * that we're guaranteed the only character we'll try to index this
-	 * nxt/chk pair with is EOB, i.e., 0, so we don't have to make sure
-	 * there's room for jam entries for other characters.
+	 * action and one for the end-of-buffer transition.  The matching loop
+	 * also enters this state on a NUL that is part of the input, and then
+	 * indexes it with the class of the character that follows, so the
+	 * emitted table is padded with numecs jam entries after it.
 	 */
 
 	while (tblend + 2 >= current_max_xpairs)
@@ -317,8 +320,14 @@ static void genctbl(void)
 	transition_struct_out (chk[tblend + 1], nxt[tblend + 1]);
 	transition_struct_out (chk[tblend + 2], nxt[tblend + 2]);
 
+	/* Jam entries for every other character class (a real NUL in the
+	 * input leads here too, followed by an arbitrary character).
+	 */
+	for (i = 0; i < numecs; ++i)
+		transition_struct_out (0, 0);
+
 	outn ("]])");
-	footprint += sizeof(struct yy_trans_info) * (tblend + 2 + 1);
+	footprint += sizeof(struct yy_trans_info) * (tblend + 2 + 1 + numecs);
 
 	out_dec ("m4_define([[M4_HOOK_STARTTABLE_SIZE]], [[%d]])", lastsc * 2 + 1);
 	if (gentables) {
